@@ -30,7 +30,7 @@ TReset == /\ IsEvent("Reset")
           /\ memDirty' = FALSE /\ prog' = <<>> /\ phase' = "idle"
           /\ nextId' = 1 /\ nops' = 0 /\ ncrash' = 0 /\ keep' = {} /\ excused' = {}
           /\ cur' = [o |-> Call("none", 0, 0, FALSE, ""), res |-> "ok"]
-          /\ UNCHANGED dev
+          /\ rundev' = {} /\ UNCHANGED dev
 TBegin == /\ IsEvent("Begin")
           /\ CASE Ev.op = "PinRec" -> BeginPinRec(Ev.c, Ev.name)
                [] Ev.op = "PinDir" -> BeginPinDir(Ev.c, Ev.name)
